@@ -931,7 +931,9 @@ class Sandbox:
         if inputs is None:
             self.inputs = []
         if clear:
-            self.inputs.clear()
+            # A new list rather than `.clear()`: the argument may be the current queue itself
+            # (`get_input()` hands that out), and the queue may have been replaced by a function
+            self.inputs = []
         if isinstance(inputs, str):
             self.inputs.append(inputs)
         elif isinstance(inputs, (int, float, bool)):
